@@ -140,13 +140,54 @@ func isHonest(tp Tuple, f *model.Forest, v *model.View) bool {
 var hostileConsts = []uint64{0, 1, 2, 3, 7, 8, 15, 16, 31, 32, 63, 64, 255, 256, 1<<16 - 1, 1 << 16, 1<<31 - 1, 1 << 31, 1<<32 - 1, 1 << 32, 1<<62 - 1, 1 << 62,
 	1<<63 - 1, 1 << 63, 1<<63 + 1, ^uint64(0) - 1, ^uint64(0)}
 
+// hostileRows lists the row counts of layouts other than the external one in which hostile
+// positions are also expressed (a map forest reads a target as a position of its own TotalRows
+// layout). Set by the case generators from the drawn configurations before tuples are drawn.
+var hostileRows = []int{63}
+
+// genLayoutPos draws a position of the R-row layout: any row, offsets at and around the width
+// that the row has in the external layout (where aliasing between layouts would happen).
+func genLayoutPos(t *rapid.T, v *model.View, label string) uint64 {
+	R := uint8(rapid.SampledFrom(hostileRows).Draw(t, label+"-R"))
+	if R < v.R {
+		R = v.R
+	}
+	row := uint8(rapid.IntRange(0, int(R)).Draw(t, label+"-row"))
+	if rapid.Bool().Draw(t, label+"-lowrow") && v.R > 0 {
+		row = uint8(rapid.IntRange(0, int(v.R)).Draw(t, label+"-row2"))
+	}
+	width := model.RowLen(row, R)
+	ext := uint64(0) // width of that row in the external layout
+	if row <= v.R {
+		ext = model.RowLen(row, v.R)
+	}
+	cands := []uint64{0, 1, ext, ext + 1, 2*ext - 1, 2 * ext, 3 * ext, width - 1}
+	if ext > 0 {
+		cands = append(cands, ext-1)
+	}
+	off := rapid.SampledFrom(cands).Draw(t, label+"-off")
+	if rapid.IntRange(0, 3).Draw(t, label+"-rnd") == 0 && width > 1 {
+		hi := 4*ext + 4
+		if hi > width-1 {
+			hi = width - 1
+		}
+		off = rapid.Uint64Range(0, hi).Draw(t, label+"-offr")
+	}
+	if width > 0 && off >= width {
+		off = width - 1
+	}
+	return model.Pos(row, off, R)
+}
+
 // genHostilePos draws a position: inside the layout, just outside it, or a hostile constant.
 func genHostilePos(t *rapid.T, v *model.View, inRangeOnly bool, label string) uint64 {
 	maxPos := v.MaxPos()
 	if inRangeOnly {
 		return rapid.Uint64Range(0, maxPos).Draw(t, label)
 	}
-	switch rapid.IntRange(0, 5).Draw(t, label+"-kind") {
+	switch rapid.IntRange(0, 6).Draw(t, label+"-kind") {
+	case 6:
+		return genLayoutPos(t, v, label+"-lay")
 	case 0, 1:
 		return rapid.Uint64Range(0, maxPos).Draw(t, label)
 	case 2:
@@ -198,6 +239,9 @@ func sortU64(x []uint64) {
 // mutate applies one structured mutation to the tuple.
 func mutate(t *rapid.T, tp Tuple, f *model.Forest, v *model.View, inRangeOnly, allowLenMismatch bool) Tuple {
 	kinds := []string{"dup", "retarget", "swaphash", "rehash", "pdrop", "pinsert", "pswap", "preplace", "protate", "nested", "addtarget"}
+	if !inRangeOnly {
+		kinds = append(kinds, "alias")
+	}
 	if allowLenMismatch {
 		kinds = append(kinds, "lenmismatch")
 	}
@@ -261,6 +305,25 @@ func mutate(t *rapid.T, tp Tuple, f *model.Forest, v *model.View, inRangeOnly, a
 			}
 		default:
 			tp.Targets[i] = genHostilePos(t, v, inRangeOnly, "pos")
+		}
+	case "alias":
+		// re-express a target in another layout at a LOWER row with an offset past that row's
+		// external width: a verifier that converts layouts by (row, offset) arithmetic without a
+		// range check folds it back onto the same node. The claim is false: nothing is there.
+		if nt == 0 {
+			break
+		}
+		i := pick(nt, "i")
+		R := uint8(rapid.SampledFrom(hostileRows).Draw(t, "aliasR"))
+		if R <= v.R {
+			R = 63
+		}
+		if r, _, ok := model.RowOff(tp.Targets[i], v.R); ok && r > 0 {
+			low := uint8(rapid.IntRange(0, int(r)-1).Draw(t, "aliasrow"))
+			off := tp.Targets[i] - model.RowStart(low, v.R)
+			if off < model.RowLen(low, R) {
+				tp.Targets[i] = model.Pos(low, off, R)
+			}
 		}
 	case "swaphash":
 		if nt >= 2 {
